@@ -52,3 +52,58 @@ Qed.
 Lemma build_invalid : forall y m d h mi s us o,
   valid_civil y m d && valid_clock h mi s us = false -> eval (OpBuild y m d h mi s us o) = VErr RangeErr.
 Proof. intros. cbn. unfold y_build. rewrite H. reflexivity. Qed.
+
+(* ---- replace() ---------------------------------------------------------------- *)
+Lemma valid_hdt_range : forall h, valid_hdt h = true -> in_range (wall (conv h)) = true.
+Proof. intros [w|d] V; cbn in *; [exact V|]. unfold valid_adt in V. lia. Qed.
+
+(* replacing only the offset keeps the wall reading: the instant moves by the offset difference *)
+Lemma replace_offset : forall h ro, valid_hdt h = true ->
+  exists x, eval (OpReplace h None None None None None None None ro) = VDt x /\
+    wall x = wall (conv h) /\ off x = keep ro (off (conv h)) /\
+    instant x = instant (conv h) - (keep ro (off (conv h)) - off (conv h)).
+Proof.
+  intros h ro V. pose proof (valid_hdt_range h V) as R.
+  exists {| wall := wall (conv h); off := keep ro (off (conv h)) |}.
+  split; [|unfold instant; cbn [wall off]; repeat split; lia].
+  cbn. unfold y_replace, y_build. cbn [keep].
+  destruct (wall_of_its_fields (wall (conv h))) as [W K].
+  destruct (civil_from_days (wall (conv h) / US_DAY)) as [[y m] d] eqn:C.
+  assert (VC : valid_civil y m d = true).
+  { apply (civil_valid (wall (conv h) / US_DAY)); [|exact C].
+    unfold in_range, MAXWALL in R. unfold US_DAY in *.
+    split; [apply Z.div_pos; lia | apply Z.div_lt_upper_bound; lia]. }
+  unfold dt_field in *. rewrite C in *. cbn [fst snd] in *.
+  rewrite VC, K, W. reflexivity.
+Qed.
+
+(* replacing fields: the result exists exactly when the new fields are a real date and clock
+   reading, and then reads back the replaced fields, the kept fields and the (replaced) offset *)
+Lemma replace_fields : forall h ry rm rd rh rmi rs rus ro,
+  let w := wall (conv h) in
+  let y := keep ry (dt_field FYear w) in let m := keep rm (dt_field FMonth w) in
+  let d := keep rd (dt_field FDay w) in let hh := keep rh (dt_field FHour w) in
+  let mi := keep rmi (dt_field FMinute w) in let s := keep rs (dt_field FSecond w) in
+  let us := keep rus (dt_field FMicrosecond w) in
+  eval (OpReplace h ry rm rd rh rmi rs rus ro) = eval (OpBuild y m d hh mi s us (keep ro (off (conv h)))).
+Proof. reflexivity. Qed.
+
+(* ---- date and time of day ------------------------------------------------------- *)
+Lemma date_plus_time : forall h, valid_hdt h = true ->
+  eval (OpDate h) = VDt (dt_date (conv h)) /\ eval (OpTime h) = VTs (dt_time (conv h)) /\
+  eval (OpAdd (Aware (dt_date (conv h))) (dt_time (conv h))) = VDt (conv h) /\
+  eval (OpDiff h (Aware (dt_date (conv h)))) = VTs (dt_time (conv h)) /\
+  eval (OpField FHour (Aware (dt_date (conv h)))) = VInt 0 /\
+  in_range (wall (dt_date (conv h))) = true.
+Proof.
+  intros h V. pose proof (valid_hdt_range h V) as R.
+  destruct (date_time_split (conv h)) as (S & T & M & O).
+  split; [reflexivity|]. split; [reflexivity|].
+  assert (RD : in_range (wall (dt_date (conv h))) = true)
+    by (clear - R S T M; unfold in_range, US_DAY in *; Z.div_mod_to_equations; lia).
+  split; [|split; [|split; [|exact RD]]].
+  - cbn. unfold y_add, py_add, mk_dt. cbn [hwall conv]. rewrite S, R.
+    destruct (conv h) as [w o]; reflexivity.
+  - cbn. unfold y_diff, py_diff. cbn [conv]. f_equal. unfold dt_diff, instant. rewrite O. lia.
+  - cbn. unfold y_field, dt_field. cbn [hwall]. rewrite M. reflexivity.
+Qed.
